@@ -84,7 +84,7 @@ example : (Sector.styledBoundingBox ⟨some 1, some 2, 5, .outside⟩
       ⟨some 1, some 2, 5, .outside⟩).InRange := by decide
 
 -- [V] arc / sector, default (f32) build only: the plane sector and the bevel of the translated shape are those of the original (micromath's f32 trigonometry is not modelled; the hooks are called with the angles alone). For the `fixed_point` build this is proved on the model in Props/C07/ArcAngles.lean (`Fx.planeSectorNew` / `Fx.styledSectorTrig` take the two raw angles and nothing else; `fx_styled_arc_translate`, `fx_styled_sector_translate`: angles -> pixels commutes with translation). Both builds: that `Transform::translate` copies the two angle fields (`..*self`) is Rust-level: carried by correspondence + oracle only
--- [V] arc / sector: `translate_mut` gives the same shape as `translate`: carried by correspondence + oracle only
+-- [V] arc / sector, `translate_mut`: that Rust's `&mut self` field assignment is the functional field update of the model is language semantics, carried by the oracle only (`C07:translate-mut-differs` compares both methods on the real code); PROVED on the model of the in-place body as the source writes it (EG/Model/TranslateMut.lean), for all inputs: `arc_translate_mut`, `sector_translate_mut` (Props/C07/TranslateMut.lean)
 -- [V] arc / sector: coordinates for which the iterated box leaves the `i32` range (guards `Rect.InRange` false; saturation / overflow there is C08's topic): carried by correspondence + oracle only
 
 end EG.C07.Arc
